@@ -73,8 +73,8 @@ def run(rep, ctx, tier):
             nl += a
             nc += c_
     rep.count("R1p loops", nl)
-    if nl < 3:
-        rep.add("R1p", "per-item-fresh:floor", False, "only %d parameter-driven loops found in trim / prepare (counted 4; fail closed)" % nl, None)
+    if nl < 1:
+        rep.add("R1p", "per-item-fresh:floor", False, "no parameter-driven loop found in trim / prepare (counted 4; floor 1; fail closed)", None)
     # purity of trim
     trims = [("%s.trim" % sk, f.find1("trim", self_adt=S[sk]["adt"], trait=PC), S[sk]["adt"]) for sk in S]
     trims.append(("multilinear.trim", f.find1("trim", self_adt=ML, trait=""), None))
